@@ -5,7 +5,6 @@ package fzf
 import (
 	"fmt"
 	"os"
-	"regexp"
 	"strings"
 	"testing"
 	"unicode/utf8"
@@ -49,7 +48,6 @@ func FuzzVerifC16_Bytes(f *testing.F) {
 		f.Add([]byte(s), false, uint16(0))
 		f.Add([]byte(s), true, uint16(7))
 	}
-	keyRe := regexp.MustCompile(`(?i)x-api-key:[ \t]*secret[ \t]*(\r?\n|\r?$)`)
 	f.Fuzz(func(t *testing.T, b []byte, withKey bool, split uint16) {
 		if len(b) > 100000 {
 			return
@@ -80,7 +78,7 @@ func FuzzVerifC16_Bytes(f *testing.F) {
 		if _, _, msg := httpWellFormed(res.response); msg != "" {
 			t.Fatalf("key %q bytes %q: malformed answer %q: %s", key, raw, res.response, msg)
 		}
-		if key != "" && !keyRe.MatchString(raw) {
+		if key != "" && !c16KeyGiven(raw, "secret") {
 			if len(res.actions) > 0 || len(res.gets) > 0 || strings.Contains(res.response, "SECRET-STATE") {
 				t.Fatalf("key %q bytes %q: accepted without the key header (actions %v, gets %d)", key, raw, res.actions, len(res.gets))
 			}
